@@ -1642,6 +1642,16 @@ class Pipeline:
         kwargs.update(update)
         return Pipeline(**kwargs)  # type: ignore[arg-type]
 
+    def __setstate__(self, state: dict) -> None:
+        """Restore the pipeline and re-register it with its functions.
+
+        ``PipeFunc._pipelines`` is not pickled, without it an update of a function
+        would no longer clear the cached properties of the unpickled pipeline.
+        """
+        self.__dict__.update(state)
+        for f in self.functions:
+            f._pipelines.add(self)
+
     @property
     def error_snapshot(self) -> ErrorSnapshot | None:
         """Return an error snapshot for the pipeline.
